@@ -64,6 +64,31 @@ def run(ctx):
                       '%s calls %s' % (f.name, [e.text[:120] for e in calls]))
         ctx.floor('C13.1', n, 1, 'normal path of ' + q)
     callers = call_sites_of(repo, lambda t: t.qual.endswith('parse.into_sink'))
+    # the same bytes must decode to the same text in all three modes: encoding / errors / newline of the three streams agree
+    configs = {}
+    for f_, s_ in callers:
+        a = s_.node.args[0]
+        src = a
+        if isinstance(a, ast.Name):
+            for n in f_.body_nodes():
+                if isinstance(n, ast.Assign) and any(isinstance(t, ast.Name) and t.id == a.id for t in n.targets):
+                    src = n.value
+                if isinstance(n, ast.With):
+                    for it in n.items:
+                        if it.optional_vars is not None and norm(it.optional_vars) == a.id:
+                            src = it.context_expr
+        cfg = {'encoding': 'locale default', 'errors': 'strict', 'newline': 'default'}
+        if isinstance(src, ast.Call):
+            for k in src.keywords:
+                if k.arg in cfg:
+                    cfg[k.arg] = norm(k.value)
+        elif norm(src) == 'sys.stdin':
+            cfg['errors'] = 'interpreter default'
+        configs[f_.qual] = cfg
+    vals = {tuple(sorted(c.items())) for c in configs.values()}
+    ctx.check(len(vals) == 1, 'C13.1', 'streams:same-decoding', repo.func('parse.into_sink').loc(),
+              'file, pipe and run mode decode their input with the same encoding / error handler / newline mode (%s)' % dict(next(iter(vals))) if vals else '',
+              'the three input modes decode the same bytes differently: %s' % configs)
     ctx.check(len(callers) == 3, 'C13.1', 'into_sink:three-callers', repo.func('parse.into_sink').loc(), 'exactly the three log modes enter the parser', 'into_sink has %d callers' % len(callers))
     # ---- C13.2 -------------------------------------------------------------------------------------------
     pm = repo.modules['backends.libwayland_debug_output.parse']
